@@ -406,3 +406,22 @@ M('C05', 'observer-elev-raw-dtype', 'viewshed.py', "    viewpoint_elev = float(r
 M('C05', 'visibility-test-strict', 'viewshed.py', "            if max <= status_node[TN_GRAD_1]:", "            if max < status_node[TN_GRAD_1]:", 'T5')
 M('C05', 'angle-args-swapped', 'viewshed.py', "            e[E_ANG_ID] = _calculate_angle(ax, ay, vp_col, vp_row)\n            event_list[count_event] = e\n            count_event += 1\n\n            e[E_TYPE_ID] = CENTER_EVENT", "            e[E_ANG_ID] = _calculate_angle(ay, ax, vp_row, vp_col)\n            event_list[count_event] = e\n            count_event += 1\n\n            e[E_TYPE_ID] = CENTER_EVENT", 'T3')
 T('C05', 'observer-elev-float64', 'viewshed.py', "    viewpoint_elev = float(raster.values[y_view, x_view]) + observer_elev", "    viewpoint_elev = np.float64(raster.values[y_view, x_view]) + observer_elev")
+
+# ------------------------------------------------------------------------------------------------ C15
+M('C15', 'sw-region-read-wrong-offset', 'experimental/polygonize.py', "                    region_W = regions[ij-nx-1]", "                    region_W = regions[ij-nx+1]", 'G1')
+M('C15', 'se-guard-missing', 'experimental/polygonize.py', "                if (not matches_S and ij % nx < nx-1 and", "                if (not matches_S and", 'G1')
+M('C15', 'w-mask-wrong-offset', 'experimental/polygonize.py', "                    (mask is None or mask[ij-1]) and     # W pixel in mask", "                    (mask is None or mask[ij]) and     # W pixel in mask", 'G1')
+M('C15', 's-value-wrong-offset', 'experimental/polygonize.py', "                    _is_close(values[ij], values[ij-nx]))", "                    _is_close(values[ij], values[ij-1]))", 'G1')
+M('C15', 'hole-not-transformed', 'experimental/polygonize.py', "            region, points = _follow(regions, visited, nx, ny, ij-nx, True)\n            if transform is not None:\n                _transform_points(points, transform)\n", "            region, points = _follow(regions, visited, nx, ny, ij-nx, True)\n", 'G3')
+M('C15', 'transform-inplace-hazard', 'experimental/polygonize.py', "        x = transform[0]*pts[i, 0] + transform[1]*pts[i, 1] + transform[2]\n        y = transform[3]*pts[i, 0] + transform[4]*pts[i, 1] + transform[5]\n        pts[i, 0] = x\n        pts[i, 1] = y", "        pts[i, 0] = transform[0]*pts[i, 0] + transform[1]*pts[i, 1] + transform[2]\n        pts[i, 1] = transform[3]*pts[i, 0] + transform[4]*pts[i, 1] + transform[5]", 'G3')
+M('C15', 'transform-coeff-swapped', 'experimental/polygonize.py', "        y = transform[3]*pts[i, 0] + transform[4]*pts[i, 1] + transform[5]", "        y = transform[4]*pts[i, 0] + transform[3]*pts[i, 1] + transform[5]", 'G3')
+M('C15', 'ring-not-closed', 'experimental/polygonize.py', "    points[-1] = points[0]  # End point the same as start point.\n", "", 'G4')
+M('C15', 'hole-orientation', 'experimental/polygonize.py', "            forward = -1  # Facing W along N edge.\n            left = -nx", "            forward = -1  # Facing W along N edge.\n            left = nx", 'G4')
+M('C15', 'corner-offset', 'experimental/polygonize.py', "                    elif forward == nx:\n                        i += 1", "                    elif forward == nx:\n                        j += 1", 'G4')
+M('C15', 'column-from-wrong-cell', 'experimental/polygonize.py', "            column.append(values[ij])", "            column.append(values[ij-1])", 'G5')
+M('C15', 'hole-wrong-polygon', 'experimental/polygonize.py', "            polygons[region-1].append(points)", "            polygons[region].append(points)", 'G5')
+M('C15', 'regions-input-dtype', 'experimental/polygonize.py', "    regions = np.zeros_like(values, dtype=_regions_dtype)", "    regions = np.zeros_like(values)", 'G2')
+M('C15', 'merge-keeps-upper', 'experimental/polygonize.py', "                regions[ij] = lower_region\n", "                regions[ij] = upper_region\n", 'G2')
+M('C15', 'isclose-int-tolerance', 'experimental/polygonize.py', "        return lambda reference, value: value == reference", "        return lambda reference, value: abs(value - reference) <= 1", 'G6')
+M('C15', 'conn8-inverted', 'experimental/polygonize.py', "    connectivity_8 = (connectivity == 8)", "    connectivity_8 = (connectivity == 4)", 'G7')
+M('C15', 'shape-swapped', 'experimental/polygonize.py', "    ny, nx = values.shape\n    if nx == 1:", "    nx, ny = values.shape\n    if nx == 1:", 'G7')
